@@ -114,7 +114,7 @@ func (x *world) stop() {
 	for i := 0; i < 2; i++ {
 		select {
 		case <-done:
-		case <-time.After(8 * time.Second):
+		case <-time.After(15 * time.Second):
 			ok = false
 		}
 	}
@@ -247,6 +247,7 @@ func frames(group int, rng *rand.Rand) {
 		}
 	}
 	time.Sleep(100 * time.Millisecond)
+	x.n.SetPolicy(nil) // the withheld direction is restored: Stop is probed on a faithful network (loss is C16's subject)
 	x.stop()
 	w.Ev("done", "cases", count)
 }
